@@ -31,6 +31,7 @@ type vfStmt struct {
 	projCols    []string // update/delete through a project: the projected columns
 	movesKey    bool     // update that changes key values of selected rows
 	readsTarget bool     // insert query whose source reads the target table
+	q           *vfNode  // source (insertq) or target query (update, delete)
 }
 
 func vfKeyDups(t *vfTable, rows []vfRow) bool {
@@ -45,14 +46,6 @@ func vfKeyDups(t *vfTable, rows []vfRow) bool {
 		}
 	}
 	return false
-}
-
-func vfCloneRow(r vfRow) vfRow {
-	c := make(vfRow, len(r))
-	for k, v := range r {
-		c[k] = v
-	}
-	return c
 }
 
 type vfC24Gen struct {
@@ -127,6 +120,7 @@ func (g *vfC24Gen) insertQuery(t *vfTable) *vfStmt {
 		src = qg.gen(1 + r.IntN(2))
 	}
 	st := &vfStmt{kind: "insertq", target: t}
+	st.q = src
 	st.readsTarget = vfHasNode(src, func(n *vfNode) bool { return n.op == "table" && n.name == t.name })
 	st.text = "insert " + src.operandText() + " into " + t.name
 	rel, openV, big := vfModelResult(g.d, src, false)
@@ -201,7 +195,7 @@ func vfSelected(t *vfTable, rel *vfRel) map[string]vfRow {
 
 func (g *vfC24Gen) delete(t *vfTable) *vfStmt {
 	n, _ := g.targetQuery(t)
-	st := &vfStmt{kind: "delete", target: t, text: "delete " + n.text()}
+	st := &vfStmt{kind: "delete", target: t, text: "delete " + n.text(), q: n}
 	rel, openV, _ := vfModelResult(g.d, n, false)
 	_, openR, _ := vfModelResult(g.d, n, true)
 	st.open = openV+openR > 0
@@ -262,6 +256,7 @@ func (g *vfC24Gen) update(t *vfTable) *vfStmt {
 		parts = append(parts, c.name+" = "+e.text())
 	}
 	st := &vfStmt{kind: "update", target: t, text: "update " + n.text() + " set " + strings.Join(parts, ", ")}
+	st.q = n
 	if n.op == "project" {
 		st.projCols = n.cols
 	}
@@ -444,7 +439,11 @@ func vfC24Case(rep *vk.Report, d *vfDB, dbi, si int, th *Thread) {
 			if !strings.Contains(msg, "duplicate key") {
 				w := wit("refused, but not with a duplicate key error", "duplicate key error", msg)
 				w.Stack = vk.Trunc(stack, 2500)
-				rep.Violate("C24/wrong-error/"+st.kind, key, w)
+				cl := "C24/wrong-error/" + st.kind
+				if lbl := vfC24Diagnose(st, nil, nil); lbl != "" {
+					cl += "/" + lbl
+				}
+				rep.Violate(cl, key, w)
 			}
 			rep.Count("refused_as_expected", 1)
 			if st.mayFail && !st.mustFail {
@@ -465,7 +464,11 @@ func vfC24Case(rep *vk.Report, d *vfDB, dbi, si int, th *Thread) {
 	}
 	d.db.CommitMerge(ut)
 	if st.mustFail {
-		rep.Violate("C24/key-violation-accepted/"+st.kind, key, wit("the result violates a key of the table but the statement succeeded", "refusal", got))
+		cl := "C24/key-violation-accepted/" + st.kind
+		if lbl := vfC24Diagnose2(st, nil, nil, got == 0); lbl != "" {
+			cl += "/" + lbl
+		}
+		rep.Violate(cl, key, wit("the result violates a key of the table but the statement succeeded", "refusal", got))
 		// the model cannot follow: resync it from the engine
 		vfC24Resync(d, st.target, th)
 		return
@@ -477,7 +480,7 @@ func vfC24Case(rep *vk.Report, d *vfDB, dbi, si int, th *Thread) {
 	rep.Count("rows_affected", st.count)
 	if got != st.count {
 		cl := "C24/count-differs/" + st.kind
-		if lbl := vfC24Diagnose(st, nil, nil); lbl != "" && (lbl != "update-revisits-rows-moved-in-iteration-index" || got > st.count) {
+		if lbl := vfC24Diagnose2(st, nil, nil, got == 0); lbl != "" && (lbl != "update-revisits-rows-moved-in-iteration-index" || got > st.count) {
 			cl += "/" + lbl
 		}
 		rep.Violate(cl, key, wit("reported count differs from the number of selected rows"+vfNoteSuffix(st), st.count, got))
@@ -524,7 +527,7 @@ func vfC24Compare(rep *vk.Report, d *vfDB, st *vfStmt, want []vfRow, key, note s
 		cl := "C24/table-differs/" + st.kind
 		if strings.HasPrefix(note, "after refused") {
 			cl = "C24/refused-statement-changed-table/" + st.kind
-		} else if lbl := vfC24Diagnose(st, want, res.rows); lbl != "" {
+		} else if lbl := vfC24Diagnose2(st, want, res.rows, len(vfDiffCount(st.target.rows, res.rows, cols)) == 0); lbl != "" {
 			cl += "/" + lbl
 		}
 		rep.Violate(cl, key, wit(note+": table content differs from the model", map[string]any{"only_in_model": vfTruncList(onlyM, 10), "rows": len(want)},
@@ -549,6 +552,14 @@ func (d *vfDB) dbHashNow() uint64 {
 
 // vfC24Diagnose recognises the analysed defects (known_findings.d/C24.jsonl) so they get their own class.
 func vfC24Diagnose(st *vfStmt, want, got []vfRow) string {
+	return vfC24Diagnose2(st, want, got, false)
+}
+
+// selectedNothing: the engine behaved as if the statement's query selected no rows
+func vfC24Diagnose2(st *vfStmt, want, got []vfRow, selectedNothing bool) string {
+	if selectedNothing && st.q != nil && vfHasEmptyRangeInOr(st.q) {
+		return "where-or-with-empty-range-becomes-nothing"
+	}
 	if st.kind == "insertq" && st.readsTarget {
 		return "insert-query-reads-its-target-table"
 	}
@@ -591,4 +602,10 @@ func vfC24Diagnose(st *vfStmt, want, got []vfRow) string {
 		return "update-revisits-rows-moved-in-iteration-index"
 	}
 	return ""
+}
+
+// vfDiffCount returns the differing row texts of two row multisets (empty = equal).
+func vfDiffCount(a, b []vfRow, cols []string) []string {
+	x, y := vfDiff(a, b, cols)
+	return append(x, y...)
 }
